@@ -788,6 +788,51 @@ done:
 	free(pv);
 }
 
+/* an element made with KSI_TlvElement_new is given children with KSI_TlvElement_appendElement, then every child is taken out again with
+ * KSI_TlvElement_removeElement: what is left is the element without content (its header with length 0), and after each step the serialization is
+ * the reference encoding of what is in it */
+static void append_remove_checks(Node *t) {
+	KSI_TlvElement *el = NULL; size_t i, j, nk, kept[8]; Node *m; unsigned char *e2, *o, *buf; size_t n, l; int rc;
+	if (!t->comp || t->nk == 0 || !t->fits) return;
+	/* children with tags of their own only (removal is by tag) */
+	for (i = 0, nk = 0; i < t->nk && nk < 8; i++) { int uniq = t->kid[i]->fits; for (j = 0; j < t->nk; j++) if (j != i && t->kid[j]->tag == t->kid[i]->tag) uniq = 0; if (uniq) kept[nk++] = i; }
+	if (nk == 0) return;
+	if (KSI_TlvElement_new(&el) != KSI_OK || !el) die("KSI_TlvElement_new");
+	el->ftlv.tag = t->tag; el->ftlv.is_nc = t->nc; el->ftlv.is_fwd = t->fwd;
+	m = calloc(1, sizeof *m); m->tag = t->tag; m->nc = t->nc; m->fwd = t->fwd; m->comp = 1; m->kid = calloc(8, sizeof *m->kid); m->nk = 0;
+	case_sub(" edit: %zu children appended to a new element, then removed one by one", nk);
+	for (i = 0; i < nk; i++) {
+		KSI_TlvElement *c = build_el(t->kid[kept[i]]);
+		if (!c) goto done;
+		rc = KSI_TlvElement_appendElement(el, c); KSI_TlvElement_free(c);
+		if (rc != KSI_OK) die("appendElement");
+		m->kid[m->nk++] = t->kid[kept[i]];
+	}
+	for (i = 0; i <= nk; i++) {
+		measure(m);
+		if (m->fits) {
+			e2 = malloc(m->elen + 8); o = enc(m, e2, NULL); n = (size_t)(o - e2);
+			buf = out_get(n, n); l = 0; rc = KSI_TlvElement_serialize(el, buf, n, &l, 0);
+			vh_eval++;
+			judge("element.edit", i == 0 ? "KSI_TlvElement_appendElement+KSI_TlvElement_serialize" : m->nk ? "appendElement+removeElement+KSI_TlvElement_serialize" : "appendElement+removeElement(every child)+KSI_TlvElement_serialize", 0, e2, n, 0, 0, n, rc, buf, l); out_put();
+			if (rc == KSI_OK && m->nk == 0) vh_count("edit_emptied_elements_ok", 1);
+			free(e2);
+		}
+		if (i < nk) {
+			KSI_TlvElement *rem = NULL; size_t pick = vh_below(m->nk);
+			rc = KSI_TlvElement_removeElement(el, m->kid[pick]->tag, &rem);
+			if (rc != KSI_OK) { vh_viol("element.removeElement:appended-child:refused", tdesc, "KSI_TlvElement_removeElement(tag 0x%x) on an appended child res=0x%x", m->kid[pick]->tag, rc); if (rem) KSI_TlvElement_free(rem); break; }
+			KSI_TlvElement_free(rem);
+			memmove(&m->kid[pick], &m->kid[pick + 1], (m->nk - pick - 1) * sizeof *m->kid); m->nk--;
+		}
+	}
+done:
+	KSI_TlvElement_free(el);
+	arena_free();
+	free(m->kid); free(m);
+	measure(t);
+}
+
 static void mutate_checks(Node *t, const unsigned char *E) {
 	size_t i, j, pick = (size_t)-1; KSI_TlvElement *el = NULL, *rem = NULL; unsigned char *in; int rc; Node *removed;
 	unsigned char *exp, *o; size_t n, l;
@@ -936,7 +981,7 @@ static void run_tree(Node *t) {
 	}
 	if (E && (what & W_PARSE)) { case_set(tdesc); parse_all(E, t->elen); perturb(E, t->elen); }
 	if (E && (what & W_STREAM)) { case_set(tdesc); stream_checks(E, t->elen, t->elen < 64 || (ntrees % 8) == 0); }
-	if (E && (what & W_MUTATE)) { case_set(tdesc); mutate_checks(t, E); case_set(tdesc); tlv_edit_checks(t, E); }
+	if (E && (what & W_MUTATE)) { case_set(tdesc); mutate_checks(t, E); case_set(tdesc); tlv_edit_checks(t, E); case_set(tdesc); append_remove_checks(t); }
 	free(full);
 }
 
